@@ -49,6 +49,21 @@ def sendquery_jobs(tier):
                                   % (nsrv, usevc, ["none", "UDP (use count 0..3)", "TCP"][existing], sibling, pre)))
     return J
 
+def sendquery_oom_jobs(tier):
+    """One ares_send_query level whose k-th allocation fails: a request that stays live must be in flight WITH a deadline
+    and a connection entry, otherwise it completed once with a failure."""
+    J = []
+    base = dict((j["name"], j) for j in sendquery_jobs(tier))
+    for nm, ks in (("sendquery_srv1_vc0_ex1_sib0", (1, 2, 3, 4)), ("sendquery_srv1_vc1_ex2_sib0", (1, 2, 3, 4))):
+        for k in ks:
+            j = dict(base[nm])
+            j["name"] = nm + "_oom%d" % k
+            j["defines"] = j["defines"] + ["-DM_OOM=%d" % k]
+            j["kf_group"] = "sendquery_oom"
+            j["bound"] = j["bound"] + "; allocation number %d of the attempt fails" % k
+            J.append(j)
+    return J
+
 UW = ["end_query:3", "ares_close_connection:3", "handle_conn_error:3", "ares_cancel:3", "M_user_cb:3", "ares_free_query:4",
       "ares_cancel.0:4", "ares_htable_szvp_get.0:5", "ares_htable_szvp_remove.0:5", "ares_htable_szvp_insert.0:5",
       "ares_htable_szvp_insert.1:5", "ares_htable_asvp_get.0:7", "ares_htable_asvp_remove.0:7", "ares_htable_asvp_insert.0:7",
@@ -198,6 +213,17 @@ def readanswers_jobs(tier):
                             "completion callback may start a follow-up request whose send (one level, every socket/cookie/"
                             "serialisation failure) may land on the connection under read" % ("TCP" if usevc else "UDP")))
     return J
+
+def flush_requeue_jobs(tier):
+    return [dict(name="flush_requeue_two", harness="../machine/flush_requeue.c",
+                 defines=["-DVP_REALLOC_SIZES=32,64", "-DVP_REALLOC_ARRAYCOPY"],
+                 real=LIB, support=SUP, unwind=8, backend="cadical", timeout=1800, mem_gb=8,
+                 replace=["ares_send_query"], replace_with=["sq_stub.c"],
+                 unwindset=UW + ["ares_send_query:4", "ares_requeue_query:3", "memmove.0:34", "memmove.1:34"],
+                 witnesses=["end", "both resent", "first resend failed, second still sent"],
+                 bound="ONE read_answers over two complete frames, each a truncated UDP answer to one of two requests in flight: "
+                       "both are deferred to the resend array (real) and flushed; every send outcome of the contract stub "
+                       "(in flight / completed with any failure status)")]
 
 def write_event_jobs(tier):
     return [dict(name="write_event_tcp", harness="../machine/write_event.c",
